@@ -102,6 +102,7 @@ def _recording(ti, store):
         # to it; what THIS analysis sees is its content now
         self._closure_snapshot = {k_: set(v) for k_, v in self.closure_types.items()}
         self._stale_kept = {}
+        self._unbounded = False
         self._nonmono = set()
         self._visits = 0
         store.append(self)
@@ -113,6 +114,9 @@ def _recording(ti, store):
     def visit_node(self, node):
         res = orig_visit(self, node)
         self._visits += 1
+        if self._visits % 25 == 0 and any(type_depth(t) > 40 for ts in self.out[node].types.values() for t in ts):
+            self._unbounded = True        # product types nest ever deeper: the abstract domain has no finite height
+            raise AnalysisTimeout()
         if self._visits >= visit_cap(len(self.graph.index)):
             raise AnalysisTimeout()       # deterministic cap: converging runs on these programs need a few hundred visits
         a = node.ast_node
@@ -133,6 +137,23 @@ def _recording(ti, store):
         yield
     finally:
         cls.__init__, cls.visit_node, ti.StmtInferrer.__init__ = orig_init, orig_visit, orig_inf_init
+
+
+def type_depth(t):
+    """Nesting depth of a (product) type, iteratively."""
+    d, level = 0, [t]
+    while level:
+        nxt = []
+        for x in level:
+            if isinstance(x, tuple):
+                nxt.extend(x)
+        if not nxt:
+            break
+        d += 1
+        level = nxt
+        if d > 60:
+            break
+    return d
 
 
 def visit_cap(nnodes):
@@ -200,10 +221,12 @@ class Analysis:
             node = m['fnd'].resolve(node, ctx, self.graphs)
             with _recording(m['ti'], self.analyzers), time_limit(300):
                 node = m['ti'].resolve(node, ctx, self.graphs, self.resolver)
-        except AnalysisTimeout as e:
+        except (AnalysisTimeout, RecursionError) as e:
             if not self.analyzers:
                 raise
             self.diverged = self.analyzers[-1]          # the analysis of this function hit the visit cap
+            if isinstance(e, RecursionError):
+                self.diverged._unbounded = True
         except (NotImplementedError, AssertionError, AttributeError, KeyError, ValueError, TypeError) as e:
             raise Unsupported('%s: %s' % (type(e).__name__, e))
         # For-statement of each iter node
@@ -396,6 +419,7 @@ def _own_exprs(s):
 
 
 DIVERGENCE_CLASS = 'no_fixed_point_nonmonotone_untyped_assignment'
+UNBOUNDED_CLASS = 'no_fixed_point_unbounded_product_types'
 CLASS_ORDER = ['retyped_by_untracked_binder', 'retyped_by_untyped_assignment', 'nonlocal_rebound_in_callee',
                'retyped_by_local_call_side_effect', 'captured_var_rebound_by_calling_statement',
                'local_function_called_from_sibling']
